@@ -98,6 +98,14 @@ CHECKS = {
         "Held bytes are measured as bytes fed since the last output (upper bound of what any internal buffer holds).",
         "DESIGN.md section 3 C07",
     ),
+    "C10": (
+        "exploration",
+        "property-based schedule generation: ordered per-iteration action lists (deliver bytes via the protocol callbacks / cancel task / cancel scope) on a virtual loop; history invariant 'everything returned == everything written'",
+        "The real StreamReaderBufferedProtocol + adapter (and AsyncStreamEndpoint with both consumers, the low-level stream server's request receiver with yielded timeouts, AsyncTLSStreamTransport) are driven by generated schedules in which cancellations land in the same or adjacent loop iteration as deliveries, in either order; "
+        "the reader re-issues receives after each cancellation; the concatenation of all returned data must equal the stream. Blocking receives ending in TimeoutError are judged by C03's history oracle under the fake selector.",
+        "The selector transport is FakeAsyncioTransport (mirrors CPython 3.12 callback order); TLS layer runs over the in-memory transport.",
+        "DESIGN.md section 3 C10",
+    ),
 }
 
 PENDING = {}
